@@ -364,17 +364,21 @@ class Bicomplex(object):
 #         return Bicomplex(log_m, arg_c + 2 * n * np.pi)
 
     def arcsin(self):
-        J = Bicomplex(0, 1)
-        return -J * ((J * self + (1 - self ** 2) ** 0.5).log())
+        return (self / ((1 - self) * (1 + self)) ** 0.5).arctan()
 
     def arccos(self):
         return np.pi / 2 - self.arcsin()
 
     def arctan(self):
-        J = Bicomplex(0, 1)
-        arg1, arg2 = 1 - J * self, 1 + J * self
-        tmp = J * (arg1.log() - arg2.log()) * 0.5
-        return Bicomplex(tmp.z1, tmp.z2)
+        # Addition theorem arctan(a) - arctan(b) = arctan((a - b) / (1 + a * b)) applied to the
+        # idempotent components a, b = z1 -+ 1j * z2.  (Forming 1 -+ J * z adds the small z2
+        # to 1 and thereby destroys the O(h) parts used by the multicomplex step method.)
+        z1, z2 = self.z1, self.z2
+        iz2 = 1j * z2
+        t_1 = np.arctan(-iz2 / (1 + z1 * (z1 - iz2)))
+        t_2 = np.arctan(iz2 / (1 + z1 * (z1 + iz2)))
+        return Bicomplex(np.arctan(z1) + 0.5 * (t_1 + t_2),
+                         0.5 * np.arctanh(2 * z2 / (1 + z1 * z1 + z2 * z2)))
 
     def arccosh(self):
         return (self + (self ** 2 - 1) ** 0.5).log()
